@@ -23,6 +23,10 @@ SameMulti == /\ Len(OutIds) = Len(Circ) /\ KnownIds
              /\ \A k, l \in DOMAIN OutIds : k # l => OutIds[k] # OutIds[l]
              /\ DistinctIds(Circ)
 Cmd(id)   == Circ[PosIn(Circ, id)]
+\* option code of command id on wire w (recorded as a sequence of <<wire, code>> per command)
+OptOf(id, w) == LET o == Case.circ[PosIn(Circ, id)].opt IN
+                IF \E j \in DOMAIN o : o[j][1] = w THEN (CHOOSE j \in DOMAIN o : o[j][1] = w) ELSE 0
+OptCode(id, w) == LET o == Case.circ[PosIn(Circ, id)].opt IN IF OptOf(id, w) = 0 THEN 0 ELSE o[OptOf(id, w)][2]
 A         == Case.a
 B         == Case.b
 Grouped   == Case.kind \in {"group", "gbs"}
@@ -37,6 +41,12 @@ Final     == IF Case.kind = "group" /\ B = 0 /\ A # Len(OutIds) THEN "TrailingWi
                         /\ Range(Case.merged) = BWires /\ Len(Case.merged) = Cardinality(BWires)
                         /\ \A k \in 1 .. Len(Case.merged) - 1 : Case.merged[k] < Case.merged[k + 1])
                   THEN "GBSCollect"
+             \* the collected measurement carries, mode by mode, the option (post-selection value / dark counts, coded as an integer,
+             \* 0 = none) of the command that measured the mode
+             ELSE IF Case.kind = "gbs" /\
+                     ~ (\A k \in (A + 1) .. (A + B) : \A w \in Cmd(OutIds[k]).wires :
+                           \E j \in DOMAIN Case.mergedopt : Case.mergedopt[j][1] = w /\ Case.mergedopt[j][2] = OptCode(OutIds[k], w))
+                  THEN "GBSOptions"
              ELSE "accepted"
 
 Init == /\ tid \in DOMAIN Cases /\ i = 0
